@@ -254,6 +254,13 @@ def step (w : World) (toks : List String) : World × String :=
           headerCount := max m.headerCount n } }
         ({ w with st := some s' }, "ok " ++ observe p s')
       | none => (w, "bad-op")
+    | "root", [start, hs], some s =>
+      match start.toNat?, (if hs == "-" then some [] else (splitOn1 hs ',').mapM Hex.ofHex) with
+      | some start, some pre =>
+        match blockRootWithPre p s start pre with
+        | some r => (w, hex r)
+        | none => (w, "panic")
+      | _, _ => (w, "bad-op")
     | "obs", [], some s => (w, observe p s)
     | "obs", [], none => (w, "closed:" ++ w.dead.getD "")
     | "reopen", [], some s =>
